@@ -47,7 +47,13 @@ Definition irec := (nat * option (list node))%type.
 
 Inductive job := JThen (body : list node) | JAsync (seg : list node).
 
-Inductive api := ARun (body : list node) | ACall (body : list node) | ATry (acts : list node) | AClear.
+Inductive result := RNormal | RError (p : payload) | RHostPanic | RStuck.
+
+(* [AScen r evs]: an API call running a scripted scenario outside the tree language (a generator suspended inside
+   for-of inside try, closed by return()/throw() from a later call); only its SPECIFICATION is modelled: result [r],
+   effects [evs], every register and stack as before the call *)
+Inductive api := ARun (body : list node) | ACall (body : list node) | ATry (acts : list node) | AClear
+               | AScen (r : result) (evs : list nat).
 
 Record ctx := mkCtx { c_prg : bool; c_stash : nat; c_sb : Z; c_args : Z }.
 
@@ -684,8 +690,6 @@ with run_top (fuel : nat) (body : list node) (s : state) {struct fuel} : state *
 End Exec.
 
 (* ---- one outermost API call, histories, and the idle predicate ---- *)
-Inductive result := RNormal | RError (p : payload) | RHostPanic | RStuck.
-
 Definition of_go (r : state * outcome) : state * result :=
   match r with
   | (s, ONorm) => (s, RNormal)
@@ -696,6 +700,7 @@ Definition of_go (r : state * outcome) : state * result :=
 Definition api_exec (lim : option nat) (faults : list (nat * fkind)) (fixed : bool) (fuel : nat) (a : api) (s : state) : state * result :=
   match a with
   | AClear => (set_intr false s, RNormal)
+  | AScen r evs => (set_log (log s ++ evs) s, r)
   | ARun body => of_go (exec lim faults fixed fuel (NRun false body) s)
   | ACall body => of_go (exec lim faults fixed fuel (NCallable false body) s)
   | ATry acts =>
@@ -714,8 +719,10 @@ Definition idle_regs (s : state) : bool :=
 Definition idle_full (s : state) : bool :=
   idle_regs s && Nat.eqb (length (jq s)) 0 && negb (intr s).
 
-(* the vector VerifIdle reports: sp sb args prgNil callStack tryStack iterStack refStack stashGlobal jobQueue interrupted *)
+(* the vector VerifIdle reports: sp sb args prgNil callStack tryStack iterStack refStack stashGlobal jobQueue interrupted
+   asyncNil (vm.curAsyncRunner is set only while an async continuation runs and is reset by a deferred function on
+   every path: it is nil whenever control is outside the runtime) *)
 Definition idle_vec (s : state) : list Z :=
   [sp s; sb s; args s; if prg s then 0 else 1; Z.of_nat (length (cs s)); Z.of_nat (length (ts s));
    Z.of_nat (length (its s)); Z.of_nat (refs s); if Nat.eqb (stash s) 0 then 1 else 0;
-   Z.of_nat (length (jq s)); if intr s then 1 else 0].
+   Z.of_nat (length (jq s)); if intr s then 1 else 0; 1].
